@@ -271,6 +271,15 @@ class AbsExec:
                 return env[e.id]
             if e.id in ("True", "False", "None"):
                 return {"True": True, "False": False, "None": None}[e.id]
+            # a plain function of the analysed module (a helper the code was factored into) is evaluated from its source
+            if self.repo is not None and self.where and e.id not in self.models:
+                try:
+                    m_ = self.repo.module(self.where)
+                except Exception:  # noqa: BLE001
+                    m_ = None
+                h_ = m_.funcs.get(e.id) if m_ is not None else None
+                if h_ is not None and getattr(h_, "cls", None) is None and isinstance(h_.node, ast.FunctionDef) and not h_.node.decorator_list:
+                    return Closure(h_.node, {})
             return Tok(e.id)
         if isinstance(e, ast.Attribute):
             base = self.eval(e.value, env)
